@@ -113,7 +113,9 @@ class C11(Check):
             r1 = sim.op_results[1]
             m = scn["ops"][1][1]
             if r1["exc"] is not None:
-                res.add("not-reusable", f"{site}:{r1['exc'][0]}", f"{tag}: the next calibrate({m}) raised {r1['exc']}")
+                import re
+                words = "-".join(re.sub(r"[^A-Za-z ]", "", r1["exc"][1]).split()[:4])
+                res.add("not-reusable", f"{site}:{r1['exc'][0]}:{words}", f"{tag}: the next calibrate({m}) raised {r1['exc']}")
             else:
                 if r1["findings"]:
                     c, s, d = r1["findings"][0]
